@@ -15,6 +15,7 @@ import (
 	"go/parser"
 	"go/token"
 	"io"
+	"math/rand"
 	"net/http"
 	"net/http/httptest"
 	"os"
@@ -294,7 +295,10 @@ var expectHook func(name string, n, i, k uint64) (string, bool)
 var (
 	nodeMu      sync.Mutex
 	nodeCorrupt *corruption
-	nodeHits    int
+	// a second corruption on another RPC method (thorough tier: combined corruptions)
+	nodeCorrupt2 *corruption
+	nodeHits     int
+	nodeHits2    int
 )
 
 func newNode(t *testing.T) *httptest.Server {
@@ -310,20 +314,27 @@ func newNode(t *testing.T) *httptest.Server {
 				out[i] = answer(batch[i])
 			}
 			nodeMu.Lock()
-			c := nodeCorrupt
-			match := false
-			if c != nil && len(batch) > 0 {
+			matches := func(c *corruption) bool {
+				if c == nil || len(batch) == 0 {
+					return false
+				}
 				if c.method == "eth_getLogs" {
-					match = len(batch) == 2 && batch[1].Method == "eth_getLogs"
-				} else {
-					match = true
-					for _, b := range batch {
-						match = match && b.Method == c.method
+					return len(batch) == 2 && batch[1].Method == "eth_getLogs"
+				}
+				for _, b := range batch {
+					if b.Method != c.method {
+						return false
 					}
 				}
+				return true
 			}
+			c := nodeCorrupt
+			match := matches(c)
 			if match {
 				nodeHits++
+			} else if matches(nodeCorrupt2) {
+				c, match = nodeCorrupt2, true
+				nodeHits2++
 			}
 			nodeMu.Unlock()
 			if match {
@@ -623,6 +634,34 @@ func TestVerifPlanBounded(t *testing.T) {
 				nfail++
 				if nfail <= 12 {
 					fmt.Println("BOUNDED-FAIL " + msg)
+				}
+			}
+		}
+	}
+	// thorough tier: larger field sets at random (seeded), all modes
+	if os.Getenv("VERIF_TIER") == "thorough" {
+		seed, _ := strconv.ParseInt(os.Getenv("VERIF_SEED"), 10, 64)
+		rng := rand.New(rand.NewSource(seed + 1))
+		for _, mode := range []string{"tx", "log", "trace"} {
+			var fs []string
+			for _, f := range all {
+				if kind(f) == "tx" || kind(f) == mode {
+					fs = append(fs, f)
+				}
+			}
+			for n := 0; n < 400; n++ {
+				k := 3 + rng.Intn(6)
+				perm := rng.Perm(len(fs))
+				var set []string
+				for _, i := range perm[:k] {
+					set = append(set, fs[i])
+				}
+				cases++
+				for _, msg := range runSet(t, ts, mode, set) {
+					nfail++
+					if nfail <= 12 {
+						fmt.Println("BOUNDED-FAIL " + msg)
+					}
 				}
 			}
 		}
